@@ -1,7 +1,11 @@
 package props
 
 import (
+	"context"
 	"fmt"
+	hclog "github.com/hashicorp/go-hclog"
+	"github.com/hashicorp/go-plugin/runner"
+	"io"
 	"net"
 	"os"
 	"os/exec"
@@ -33,13 +37,15 @@ var c03Kinds = []string{
 	"hook:serve.begin", "hook:serve.listener", "hook:serve.handshake.printed", "hook:serve.serving",
 	"line-prefix", "idle-kill", "in-call:exit", "in-call:kill9", "in-stream",
 	"broker:plugin-accept", "broker:plugin-accept-sent", "broker:plugin-dial", "broker:after-nextid", "broker:knock",
-	"stdio-chunk", "timed-kill", "reattach-kill", "rejected-line-then-more",
+	"stdio-chunk", "timed-kill", "reattach-kill", "rejected-line-then-more", "burst:instant-exit",
 }
 
 var c03Ops = []string{"start", "client", "dispense", "ping", "call", "stream", "broker_dial", "broker_accept", "write"}
 
 func c03Valid(c *c03Case) bool {
 	switch c.Kind {
+	case "burst:instant-exit":
+		return c.Proto == "netrpc" // the protocol is never reached
 	case "in-stream":
 		return c.Proto != "netrpc"
 	case "stdio-chunk":
@@ -136,10 +142,87 @@ func (o *Outcome) bounded(what string, d time.Duration, f func()) bool {
 	return true
 }
 
+// instantExitRunner: a plugin that is gone the moment it was started: stderr is at EOF from the
+// beginning, stdout ends when the runner is killed.
+type instantExitRunner struct {
+	outR *io.PipeReader
+	outW *io.PipeWriter
+	done chan struct{}
+	once sync.Once
+}
+
+func newInstantExitRunner() *instantExitRunner {
+	r := &instantExitRunner{done: make(chan struct{})}
+	r.outR, r.outW = io.Pipe()
+	return r
+}
+func (r *instantExitRunner) Start(context.Context) error { return nil }
+func (r *instantExitRunner) Wait(context.Context) error  { <-r.done; return nil }
+func (r *instantExitRunner) Kill(context.Context) error {
+	r.once.Do(func() { r.outW.Close(); close(r.done) })
+	return nil
+}
+func (r *instantExitRunner) Stdout() io.ReadCloser           { return r.outR }
+func (r *instantExitRunner) Stderr() io.ReadCloser           { return io.NopCloser(strings.NewReader("")) }
+func (r *instantExitRunner) Name() string                    { return "instant-exit" }
+func (r *instantExitRunner) ID() string                      { return "1" }
+func (r *instantExitRunner) Diagnose(context.Context) string { return "" }
+func (r *instantExitRunner) PluginToHost(n, a string) (string, string, error) {
+	return n, a, nil
+}
+func (r *instantExitRunner) HostToPlugin(n, a string) (string, string, error) {
+	return n, a, nil
+}
+
+// c03Burst: many clients whose plugin is gone at once, started from several goroutines. Every Start
+// must return an error; the host (this isolated process) must survive - a panic in one of the
+// goroutines Start leaves behind ends the process and is attributed to the case by the parent.
+func c03Burst(c *c03Case) (out Outcome) {
+	out.NonTrivial = true
+	workers, per := 8, 2400
+	var wg sync.WaitGroup
+	var succeeded int64
+	_, ok := within(120*time.Second, func() {
+		for g := 0; g < workers; g++ {
+			wg.Add(1)
+			go func() {
+				defer wg.Done()
+				for i := 0; i < per; i++ {
+					r := newInstantExitRunner()
+					cl := plugin.NewClient(&plugin.ClientConfig{
+						HandshakeConfig: plugin.HandshakeConfig{ProtocolVersion: 1, MagicCookieKey: defaultCookieKey, MagicCookieValue: defaultCookieValue},
+						Plugins:         plugin.PluginSet{},
+						RunnerFunc:      func(hclog.Logger, *exec.Cmd, string) (runner.Runner, error) { return r, nil },
+						StartTimeout:    time.Millisecond,
+						Logger:          nullLogger(),
+					})
+					go func() { time.Sleep(200 * time.Microsecond); r.Kill(nil) }()
+					if _, err := cl.Start(); err == nil {
+						atomic.AddInt64(&succeeded, 1)
+					}
+					cl.Kill()
+				}
+			}()
+		}
+		wg.Wait()
+	})
+	if !ok {
+		out.Slow = "a burst of starts of plugins that are gone at once did not finish within 120 s"
+		return
+	}
+	if succeeded > 0 {
+		out.violate("%d of %d starts of a plugin that never printed anything reported success", succeeded, workers*per)
+	}
+	return
+}
+
 func c03Run(ci any) (out Outcome) {
 	c := ci.(*c03Case)
 	out.label("kind:%s", c.Kind)
 	out.label("proto:%s", c.Proto)
+	if c.Kind == "burst:instant-exit" {
+		return c03Burst(c)
+	}
 	if c.Kind == "timed-kill" {
 		out.label("op:%s", c.Op)
 	}
